@@ -139,7 +139,7 @@ private def cold : St := { store := [], trace := [] }
 private def warm : St := ((callTop demoP 5 cold 1 2 .inherit {}).map (·.1)).getD cold
 
 example : (batchTop demoP 5 warm 1 [0, 1, 0, 2] .inherit {}).map (fun x => (x.2, x.1.trace.length)) =
-    some ([.val (some 10), .exc clsRebuildable 5, .val (some 10), .val (some 10)], 3) := by decide
+    some ([.val (some 10), .exc clsRebuildable 5, .val (some 10), .val (some 30)], 3) := by decide
 example : (batchTop demoP 5 warm 1 [0, 1, 0, 2] .inherit {}).map (fun x => (x.2, x.1.trace)) =
     (seqCalls demoP 5 warm 1 [0, 1, 0, 2] .inherit {}).map (fun x => (x.2, x.1.trace)) := by decide
 
